@@ -48,9 +48,20 @@ def _names(text: str, objs: dict):
     return out
 
 
+class _DedupPart(core.Part):
+    """Part.violation keeps at most 50 records: record each canonical key once per job so that no key is dropped."""
+
+    def violation(self, key, what, replay=None):
+        seen = self.__dict__.setdefault("_seen", set())
+        if key in seen:
+            return
+        seen.add(key)
+        core.Part.violation(self, key, what, replay)
+
+
 def _job(job):
     exe, scen, mode, A, lo, hi = job
-    part = core.Part()
+    part = _DedupPart()
     objs = rx.objs_for("asan", exe)
     if mode == "single":
         res = rx.run([exe, scen, "single", lo, hi, 64])
